@@ -496,8 +496,10 @@ Record hitem := {
   hi_clock : Q; hi_fire : bool
 }.
 
-(* scheduler.on_trial_result is an oracle: decision token, and whether it is STOP or PAUSE *)
-Record answer := { an_decision : nat; an_stops : bool }.
+(* scheduler.on_trial_result is an oracle: decision token, whether it is STOP or PAUSE, and
+   whether carrying that decision out raises (backend.stop_trial / pause_trial or
+   scheduler.on_trial_remove failing) *)
+Record answer := { an_decision : nat; an_stops : bool; an_exec_fails : bool }.
 
 Definition event_of (h : hitem) (a : answer) : event :=
   {| ev_trial := hi_trial h; ev_status := hi_status h; ev_result := hi_result h;
@@ -505,8 +507,12 @@ Definition event_of (h : hitem) (a : answer) : event :=
 
 (* Tuner._update_running_trials, first loop: `if trial_id not in done_trials`: results of a
    trial which follow a STOP / PAUSE decision in the same batch are not delivered.
-   Result: delivered events (with "stopped?"), unused answers, and false when the oracle
-   ran dry = the scheduler call raised (the exception leaves the loop). *)
+   The callbacks (StoreResultsCallback appends its row) are called right after the
+   scheduler answered, BEFORE the decision is carried out: if carrying it out raises, the
+   result counts as delivered and its row exists.
+   Result: delivered events (with "stopped?"), unused answers, and false when an exception
+   leaves the loop: the oracle ran dry (= the scheduler call raised) or a STOP / PAUSE
+   could not be carried out. *)
 Fixpoint deliver_batch (answers : list answer) (done : list Z) (batch : list hitem)
   : list (event * bool) * list answer * bool :=
   match batch with
@@ -516,9 +522,11 @@ Fixpoint deliver_batch (answers : list answer) (done : list Z) (batch : list hit
       else match answers with
            | [] => ([], [], false)
            | a :: answers' =>
-               let '(es, rem, ok) :=
-                 deliver_batch answers' (if an_stops a then hi_trial h :: done else done) rest in
-               ((event_of h a, an_stops a) :: es, rem, ok)
+               if an_stops a && an_exec_fails a then ([(event_of h a, true)], answers', false)
+               else
+                 let '(es, rem, ok) :=
+                   deliver_batch answers' (if an_stops a then hi_trial h :: done else done) rest in
+                 ((event_of h a, an_stops a) :: es, rem, ok)
            end
   end.
 
